@@ -302,3 +302,28 @@ def structured_variants(dg, is_request):
     if n >= 1:
         put("pivbyte", v[:n] + bytes([v[n] ^ 0x01]) + v[n + 1:], True)
     return out
+
+
+# ---- several requests / responses on one token (the request binding is refreshed) ----
+SEQ_PATTERNS = [
+    ["Q0", "R10", "R10", "Q1", "R00"],          # register, notifications, cancel (RFC 7641 3.6), final response
+    ["Q0", "R10", "Q0", "R00"],                 # re-registration answered without Observe / Partial IV
+    ["Q0", "R10", "Q0", "R10", "R01", "Q1", "R01"],
+    ["Q-", "Q-", "R00"],                        # a second request on the token before the response
+    ["Q0", "Q1", "R00"],
+    ["Q0", "R10", "Q1", "R00", ],
+    ["Q0", "R11", "Q0", "Q0", "R00"],
+    ["Q-", "R00", "Q-", "R01", "Q0", "R10", "Q-", "R00"],
+]
+
+
+def gen_sequence(r):
+    c = gen_ctx(r)
+    token = rb(r, r.choice([1, 2, 4, 8]))
+    steps = list(r.choice(SEQ_PATTERNS))
+    if r.random() < 0.3:        # random tail, every response still preceded by a request
+        for _ in range(r.randint(1, 4)):
+            steps += [r.choice(["Q-", "Q0", "Q1"]), r.choice(["R00", "R01", "R10"])]
+    cseq = r.choice([0, 1, 254, 255, 65535, (1 << 32) - 2, r.randint(0, 1 << 30)])
+    sseq = r.choice([0, 1, 254, 255, 65535, (1 << 24) - 2, r.randint(0, 1 << 30)])
+    return " ".join(["oscseq"] + ctx_tokens(c) + [tok(token), str(r.choice([0, 1])), str(cseq), str(sseq)] + steps)
